@@ -323,9 +323,11 @@ def subsVerb (s : SubSt) (ws : List String) : Option (SubSt × String) :=
                 | none => (s, "bad-op"))
           | _, _, _ => (s, "bad-op"))
       | ["connclose", c, how] =>
-        -- `how` (graceful = WebSocket close frame first | abrupt = socket dropped) is one model step
+        -- `how` (graceful = WebSocket close frame first | abrupt = socket dropped | dropfut = the application
+        -- drops the connection future of the `ws::connect` assembly) is one model step: the connection ends
         (match c.toNat? with
-          | some c => if how == "graceful" || how == "abrupt" then runOp s (.connClose c) else (s, "bad-op")
+          | some c =>
+            if how == "graceful" || how == "abrupt" || how == "dropfut" then runOp s (.connClose c) else (s, "bad-op")
           | none => (s, "bad-op"))
       | ["stop"] => runOp s .stop
       | ["wstep", c] =>
